@@ -213,29 +213,40 @@ Section Correct.
               | None => lookup m f = None
               end.
 
-  (* not dst_is_stale *)
-  Definition fresh_out (mn : bool) (s : state) (g : file) : Prop :=
-    exists t, s_gen _ _ _ s g = Some t /\ s_out _ _ _ s g <> None
-              /\ (mn = true -> s_mapok _ _ _ s g = true) /\ s_mtime _ _ _ s g <= t.
+  (* not dst_is_stale = the output (and map) exists and the source is not newer than its stamp *)
+  Definition own_ok (mn : bool) (s : state) (f : file) : Prop :=
+    s_out _ _ _ s f <> None /\ (mn = true -> s_mapok _ _ _ s f = true).
 
+  Definition time_fresh (s : state) (g : file) : Prop :=
+    exists t, s_gen _ _ _ s g = Some t /\ s_mtime _ _ _ s g <= t.
+
+  Definition fresh_out (mn : bool) (s : state) (g : file) : Prop := own_ok mn s g /\ time_fresh s g.
+
+  (* f's own output exists, and neither f nor anything it depends on has been touched since its
+     recorded emission time (the EXISTENCE of the dependencies' outputs does not matter) *)
   Definition closure_fresh (mn : bool) (s : state) (P : proj) (f : file) : Prop :=
-    forall g, g = f \/ In g (deps P f) -> fresh_out mn s g.
+    own_ok mn s f /\ forall g, g = f \/ In g (deps P f) -> time_fresh s g.
 
-  Definition snap_ok (s : state) (k : list N) (m : manifest) (P0 : proj) (c0 : config) : Prop :=
+  (* [alt]: the state right after a crashed build may also hold outputs already written for the
+     CURRENT project (CrashProofs.v); alt = false everywhere else *)
+  Definition snap_ok (alt : bool) (s : state) (k : list N) (m : manifest) (P0 : proj) (c0 : config) : Prop :=
     k = key_of c0 /\ man_rel P0 c0 m /\ NoDup (dom P0)
     /\ (forall f, In f (dom P0) -> has_error P0 (secs_of c0) f = false)
     /\ (forall f, In f (dom P0) -> s_cdiag _ _ _ s f = diags P0 (secs_of c0) f)
     /\ (forall f, In f (dom P0) -> closure_fresh (map_needed (secs_of c0)) s P0 f ->
-                  s_out _ _ _ s f = Some (emit P0 (secs_of c0) f)).
+                  s_out _ _ _ s f = Some (emit P0 (secs_of c0) f)
+                  \/ (alt = true /\ s_out _ _ _ s f = Some (emit (s_src _ _ _ s) (secs_of (s_cfg _ _ _ s)) f))).
 
-  Definition Inv (s : state) : Prop :=
+  Definition InvG (alt : bool) (s : state) : Prop :=
     NoDup (dom (s_src _ _ _ s))
     /\ (forall f, s_mtime _ _ _ s f <= s_now _ _ _ s)
     /\ match s_man _ _ _ s, s_snap _ _ _ s with
        | None, None => True
-       | Some (k, m), Some (P0, c0) => snap_ok s k m P0 c0
+       | Some (k, m), Some (P0, c0) => snap_ok alt s k m P0 c0
        | _, _ => False
        end.
+
+  Definition Inv (s : state) : Prop := InvG false s.
 
   (* side conditions on a command (see design/C04.md):
      every restored file's previous dependencies still exist *)
@@ -318,10 +329,10 @@ Section Correct.
     intros mn s f c H. unfold dst_is_stale in H. simpl in H.
     destruct (s_gen _ _ _ s f) as [t|] eqn:G; [|discriminate].
     apply orb_false_iff in H. destruct H as [H H3]. apply orb_false_iff in H. destruct H as [H1 H2].
-    exists t. split; [exact G|]. split; [|split].
+    split; [split|].
     - destruct (s_out _ _ _ s f); [discriminate | simpl in H1; discriminate].
     - intros ->. simpl in H2. apply negb_false_iff in H2. exact H2.
-    - apply N.ltb_ge in H3. exact H3.
+    - exists t. split; [exact G|]. apply N.ltb_ge in H3. exact H3.
   Qed.
 
   Lemma hit_facts : forall co mn s P0 c0 f c,
@@ -373,16 +384,17 @@ Section Correct.
         + apply Hinc. apply in_dependents_in; assumption. }
     split; [exact Hf0|]. split.
     - intros g [->|Hg]; [congruence | apply Hdep; exact Hg].
-    - intros Hco g [->|Hg]; [apply Hfr; exact Hco | apply Hdep; [exact Hg | exact Hco]].
+    - intros Hco. split; [apply (Hfr Hco)|].
+      intros g [->|Hg]; [apply (Hfr Hco) | apply (proj2 (Hdep g Hg) Hco)].
   Qed.
 
   (* when something is restored, the store's key matched *)
-  Lemma eff_cases : forall s, Inv s ->
+  Lemma eff_cases : forall alt s, InvG alt s ->
     eff_manifest s = [] \/
-    exists P0 c0 k m, s_man _ _ _ s = Some (k, m) /\ s_snap _ _ _ s = Some (P0, c0) /\ snap_ok s k m P0 c0
+    exists P0 c0 k m, s_man _ _ _ s = Some (k, m) /\ s_snap _ _ _ s = Some (P0, c0) /\ snap_ok alt s k m P0 c0
                       /\ man_rel P0 c0 (eff_manifest s) /\ secs_of c0 = secs_of (s_cfg _ _ _ s).
   Proof.
-    intros s [_ [_ Hi]]. unfold eff_manifest, IncrModel.eff_manifest.
+    intros alt s [_ [_ Hi]]. unfold eff_manifest, IncrModel.eff_manifest.
     destruct (s_man _ _ _ s) as [[k m]|] eqn:Hm; [|left; reflexivity].
     destruct (s_snap _ _ _ s) as [[P0 c0]|] eqn:Hs; [|contradiction].
     destruct (list_eqb k (key_of (s_cfg _ _ _ s))) eqn:E; [|left; reflexivity].
@@ -406,7 +418,7 @@ Section Correct.
   Proof. intros co s f H. apply analysed_sub in H. rewrite paths_files in H. exact H. Qed.
 
   (* what is known about a restored file *)
-  Lemma restored_sem : forall co s f, Inv s -> deps_present co s ->
+  Lemma restored_sem : forall alt co s f, InvG alt s -> deps_present co s ->
     In f (dom (s_src _ _ _ s)) -> ~ In f (analysed co s) ->
     let P := s_src _ _ _ s in let sec := secs_of (s_cfg _ _ _ s) in
     exists P0 c0, s_snap _ _ _ s = Some (P0, c0) /\ secs_of c0 = sec /\ In f (dom P0)
@@ -417,8 +429,8 @@ Section Correct.
                     /\ e_frag e = cacheable P sec f)
       /\ (co = true -> closure_fresh (mn_of s) s P0 f /\ s_out _ _ _ s f = Some (emit P sec f)).
   Proof.
-    intros co s f HI Hdp Hf Hna P sec.
-    destruct (eff_cases s HI) as [He | [P0 [c0 [k [m [Hm [Hs [Hok [He Hsec]]]]]]]]].
+    intros alt co s f HI Hdp Hf Hna P sec.
+    destruct (eff_cases alt s HI) as [He | [P0 [c0 [k [m [Hm [Hs [Hok [He Hsec]]]]]]]]].
     { exfalso. apply Hna. apply eff_empty_all_analysed; assumption. }
     destruct HI as [Hnd [Htime _]].
     destruct Hok as [Hk [Hmm [Hnd0 [Herr [Hcd Hout]]]]].
@@ -433,50 +445,52 @@ Section Correct.
       destruct (dom_lookup _ _ _ Hf0) as [x Hx]. pose proof (He f) as Hef. rewrite Hx in Hef.
       destruct Hef as [e [Hle [Hh [Hfrg _]]]]. exists e. split; [exact Hle|].
       rewrite <- Hlf, Hx. split; [exact Hh|]. rewrite Hfrg. rewrite Hsec. symmetry. exact Lc.
-    - intros Hco. specialize (Hfr Hco). split; [exact Hfr|]. rewrite Le. apply Hout; [exact Hf0|].
-      unfold mn_of, IncrModel.mn_of in Hfr. fold sec in Hfr. exact Hfr.
+    - intros Hco. specialize (Hfr Hco). split; [exact Hfr|].
+      assert (Hfr' : closure_fresh (map_needed sec) s P0 f).
+      { unfold mn_of, IncrModel.mn_of in Hfr. fold sec in Hfr. exact Hfr. }
+      destruct (Hout f Hf0 Hfr') as [Ho|[_ Ho]]; [rewrite Le; exact Ho | exact Ho].
   Qed.
 
-  Lemma existsb_error_eq : forall co s, Inv s -> deps_present co s ->
+  Lemma existsb_error_eq : forall alt co s, InvG alt s -> deps_present co s ->
     existsb (has_error (s_src _ _ _ s) (secs_of (s_cfg _ _ _ s))) (analysed co s)
     = existsb (has_error (s_src _ _ _ s) (secs_of (s_cfg _ _ _ s))) (analysed co (forget s)).
   Proof.
-    intros co s HI Hdp. apply eq_true_iff_eq. rewrite !existsb_exists. split.
+    intros alt co s HI Hdp. apply eq_true_iff_eq. rewrite !existsb_exists. split.
     - intros [f [Hf He]]. exists f. split; [|exact He]. apply forget_all_analysed. eapply analysed_in_dom. exact Hf.
     - intros [f [Hf He]]. pose proof (analysed_in_dom _ _ _ Hf) as Hd. simpl in Hd.
       destruct (in_dec N.eq_dec f (analysed co s)) as [Hin|Hn]; [exists f; auto|].
-      destruct (restored_sem co s f HI Hdp Hd Hn) as [P0 [c0 [_ [_ [_ [_ [Herr _]]]]]]]. congruence.
+      destruct (restored_sem alt co s f HI Hdp Hd Hn) as [P0 [c0 [_ [_ [_ [_ [Herr _]]]]]]]. congruence.
   Qed.
 
-  Lemma mapok_restored : forall s f, fresh_out (mn_of s) s f -> (mn_of s || s_mapok _ _ _ s f) = s_mapok _ _ _ s f.
+  Lemma mapok_restored : forall s f, own_ok (mn_of s) s f -> (mn_of s || s_mapok _ _ _ s f) = s_mapok _ _ _ s f.
   Proof.
-    intros s f [t [_ [_ [Hm _]]]]. destruct (mn_of s); [rewrite Hm; reflexivity | reflexivity].
+    intros s f [_ Hm]. destruct (mn_of s); [rewrite Hm; reflexivity | reflexivity].
   Qed.
 
   Lemma file_diags_analysed : forall s an f, In f an ->
     file_diags s an f = diags (s_src _ _ _ s) (secs_of (s_cfg _ _ _ s)) f.
   Proof. intros s an f H. unfold IncrModel.file_diags. rewrite (proj2 (mem_In _ _) H). reflexivity. Qed.
 
-  Lemma file_diags_restored : forall co s f, Inv s -> deps_present co s ->
+  Lemma file_diags_restored : forall alt co s f, InvG alt s -> deps_present co s ->
     In f (dom (s_src _ _ _ s)) -> ~ In f (analysed co s) ->
     Permutation (file_diags s (analysed co s) f) (diags (s_src _ _ _ s) (secs_of (s_cfg _ _ _ s)) f).
   Proof.
-    intros co s f HI Hdp Hf Hn. unfold file_diags, IncrModel.file_diags.
+    intros alt co s f HI Hdp Hf Hn. unfold file_diags, IncrModel.file_diags.
     apply mem_false in Hn. rewrite Hn.
-    destruct (restored_sem co s f HI Hdp Hf (proj1 (mem_false _ _) Hn)) as [P0 [c0 [_ [_ [_ [_ [_ [Hcd _]]]]]]]].
+    destruct (restored_sem alt co s f HI Hdp Hf (proj1 (mem_false _ _) Hn)) as [P0 [c0 [_ [_ [_ [_ [_ [Hcd _]]]]]]]].
     rewrite Hcd. apply replay_perm; auto.
   Qed.
 
   (* ---------------- single commands ---------------- *)
 
-  Theorem build_eq_clean : forall s, Inv s -> deps_present true s ->
+  Theorem build_eq_clean : forall alt s, InvG alt s -> deps_present true s ->
     res_equiv (s_src _ _ _ s) (snd (build s)) (snd (build (forget s))).
   Proof.
-    intros s HI Hdp. unfold build, IncrModel.build.
+    intros alt s HI Hdp. unfold build, IncrModel.build.
     change (analysed_files true (mn_of s) (eff_manifest s) (paths_of s)) with (analysed true s).
     change (analysed_files true (mn_of (forget s)) (eff_manifest (forget s)) (paths_of (forget s))) with (analysed true (forget s)).
     simpl (s_src _ _ _ (forget s)). simpl (s_cfg _ _ _ (forget s)).
-    rewrite <- (existsb_error_eq true s HI Hdp).
+    rewrite <- (existsb_error_eq alt true s HI Hdp).
     destruct (existsb _ (analysed true s)) eqn:Eerr.
     { unfold res_equiv; cbv beta iota delta [snd r_status r_out r_mapok r_diags]. repeat split; auto. }
     unfold res_equiv; cbv beta iota delta [snd r_status r_out r_mapok r_diags]. split; [reflexivity|]. split; [|split].
@@ -484,7 +498,7 @@ Section Correct.
       + rewrite (proj2 (mem_In _ _) (forget_all_analysed true s f Hd)).
         destruct (mem f (analysed true s)) eqn:Em; [reflexivity|].
         apply mem_false in Em.
-        destruct (restored_sem true s f HI Hdp Hd Em) as [P0 [c0 [_ [_ [_ [_ [_ [_ [_ Ho]]]]]]]]].
+        destruct (restored_sem alt true s f HI Hdp Hd Em) as [P0 [c0 [_ [_ [_ [_ [_ [_ [_ Ho]]]]]]]]].
         destruct (Ho eq_refl) as [_ Ho']. exact Ho'.
       + assert (H1 : mem f (analysed true s) = false) by (apply mem_false; intros H; apply Hd; eapply analysed_in_dom; exact H).
         assert (H2 : mem f (analysed true (forget s)) = false) by (apply mem_false; intros H; apply Hd; apply analysed_in_dom in H; exact H).
@@ -493,9 +507,9 @@ Section Correct.
       + rewrite (proj2 (mem_In _ _) (forget_all_analysed true s f Hd)).
         destruct (mem f (analysed true s)) eqn:Em; [reflexivity|].
         apply mem_false in Em.
-        destruct (restored_sem true s f HI Hdp Hd Em) as [P0 [c0 [_ [_ [_ [_ [_ [_ [_ Ho]]]]]]]]].
+        destruct (restored_sem alt true s f HI Hdp Hd Em) as [P0 [c0 [_ [_ [_ [_ [_ [_ [_ Ho]]]]]]]]].
         destruct (Ho eq_refl) as [Hfr _]. symmetry.
-        change (mn_of (forget s)) with (mn_of s). change (s_mapok _ _ _ (forget s) f) with (s_mapok _ _ _ s f). apply mapok_restored. apply Hfr. left. reflexivity.
+        change (mn_of (forget s)) with (mn_of s). change (s_mapok _ _ _ (forget s) f) with (s_mapok _ _ _ s f). apply mapok_restored. apply Hfr.
       + assert (H1 : mem f (analysed true s) = false) by (apply mem_false; intros H; apply Hd; eapply analysed_in_dom; exact H).
         assert (H2 : mem f (analysed true (forget s)) = false) by (apply mem_false; intros H; apply Hd; apply analysed_in_dom in H; exact H).
         rewrite H1, H2. reflexivity.
@@ -503,7 +517,7 @@ Section Correct.
       simpl (s_src _ _ _ (forget s)). simpl (s_cfg _ _ _ (forget s)).
       destruct (in_dec N.eq_dec f (analysed true s)) as [Hin|Hn].
       + rewrite (file_diags_analysed s _ f Hin). apply Permutation_refl.
-      + apply file_diags_restored; assumption.
+      + eapply file_diags_restored; eassumption.
   Qed.
 
   Theorem check_eq_clean : forall s, Inv s -> deps_present false s ->
@@ -513,7 +527,7 @@ Section Correct.
     change (analysed_files false (mn_of s) (eff_manifest s) (paths_of s)) with (analysed false s).
     change (analysed_files false (mn_of (forget s)) (eff_manifest (forget s)) (paths_of (forget s))) with (analysed false (forget s)).
     simpl (s_src _ _ _ (forget s)). simpl (s_cfg _ _ _ (forget s)).
-    rewrite <- (existsb_error_eq false s HI Hdp).
+    rewrite <- (existsb_error_eq false false s HI Hdp).
     destruct (existsb _ (analysed false s)) eqn:Eerr.
     { unfold res_equiv; cbv beta iota delta [snd r_status r_out r_mapok r_diags]. repeat split; auto. }
     unfold res_equiv; cbv beta iota delta [snd r_status r_out r_mapok r_diags]. split; [reflexivity|]. split; [reflexivity|]. split; [reflexivity|].
@@ -521,15 +535,15 @@ Section Correct.
     simpl (s_src _ _ _ (forget s)). simpl (s_cfg _ _ _ (forget s)).
     destruct (in_dec N.eq_dec f (analysed false s)) as [Hin|Hn].
     - rewrite (file_diags_analysed s _ f Hin). apply Permutation_refl.
-    - apply file_diags_restored; assumption.
+    - eapply file_diags_restored; eassumption.
   Qed.
 
   (* ---------------- the invariant is preserved ---------------- *)
 
-  Lemma new_manifest_rel : forall co s, Inv s -> deps_present co s ->
+  Lemma new_manifest_rel : forall alt co s, InvG alt s -> deps_present co s ->
     man_rel (s_src _ _ _ s) (s_cfg _ _ _ s) (new_manifest s (analysed co s)).
   Proof.
-    intros co s HI Hdp f. unfold new_manifest, IncrModel.new_manifest.
+    intros alt co s HI Hdp f. unfold new_manifest, IncrModel.new_manifest.
     rewrite (lookup_map_entry content entry (new_entry content hash out dg deps cacheable s (analysed co s)) (s_src _ _ _ s) f).
     destruct (lookup (s_src _ _ _ s) f) as [x|] eqn:L; [|reflexivity].
     eexists. split; [reflexivity|]. unfold new_entry. simpl.
@@ -537,41 +551,50 @@ Section Correct.
     - simpl. repeat split. apply incl_refl.
     - apply mem_false in Em.
       assert (Hd : In f (dom (s_src _ _ _ s))) by (eapply lookup_some_dom; exact L).
-      destruct (restored_sem co s f HI Hdp Hd Em) as [P0 [c0 [_ [_ [_ [_ [_ [_ [[e [Hl [Hh Hfr]]] _]]]]]]]]].
+      destruct (restored_sem alt co s f HI Hdp Hd Em) as [P0 [c0 [_ [_ [_ [_ [_ [_ [[e [Hl [Hh Hfr]]] _]]]]]]]]].
       rewrite Hl. rewrite L in Hh. simpl. split; [exact Hh|]. split; [exact Hfr|].
       unfold kept_dependents. destruct (dependents_in (s_src _ _ _ s) f) eqn:Ed.
       + intros y [].
       + apply incl_refl.
   Qed.
 
-  Lemma no_error_all : forall co s, Inv s -> deps_present co s ->
+  Lemma no_error_all : forall alt co s, InvG alt s -> deps_present co s ->
     existsb (has_error (s_src _ _ _ s) (secs_of (s_cfg _ _ _ s))) (analysed co s) = false ->
     forall f, In f (dom (s_src _ _ _ s)) -> has_error (s_src _ _ _ s) (secs_of (s_cfg _ _ _ s)) f = false.
   Proof.
-    intros co s HI Hdp He f Hf. destruct (in_dec N.eq_dec f (analysed co s)) as [Hin|Hn].
+    intros alt co s HI Hdp He f Hf. destruct (in_dec N.eq_dec f (analysed co s)) as [Hin|Hn].
     - destruct (has_error _ _ f) eqn:E; [|reflexivity]. exfalso.
       assert (existsb (has_error (s_src _ _ _ s) (secs_of (s_cfg _ _ _ s))) (analysed co s) = true) by (apply existsb_exists; eauto).
       congruence.
-    - destruct (restored_sem co s f HI Hdp Hf Hn) as [P0 [c0 [_ [_ [_ [_ [Herr _]]]]]]]. exact Herr.
+    - destruct (restored_sem alt co s f HI Hdp Hf Hn) as [P0 [c0 [_ [_ [_ [_ [Herr _]]]]]]]. exact Herr.
   Qed.
 
-  Lemma build_inv : forall s, Inv s -> deps_present true s -> Inv (fst (build s)).
+  Lemma build_inv : forall alt s, InvG alt s -> deps_present true s ->
+    InvG alt (fst (build s)) /\ (r_status _ _ (snd (build s)) = Done -> Inv (fst (build s))).
   Proof.
-    intros s HI Hdp. pose proof HI as [Hnd [Htime Hi]].
+    intros alt s HI Hdp. pose proof HI as [Hnd [Htime Hi]].
     unfold build, IncrModel.build.
     change (analysed_files true (mn_of s) (eff_manifest s) (paths_of s)) with (analysed true s).
-    destruct (existsb _ (analysed true s)) eqn:Eerr; [exact HI|].
-    simpl. split; [exact Hnd|]. split; [intros f; simpl; specialize (Htime f); lia|].
-    simpl. unfold snap_ok. simpl.
-    split; [reflexivity|]. split; [apply (new_manifest_rel true); assumption|].
-    split; [exact Hnd|]. split; [apply (no_error_all true); assumption|]. split.
-    - intros f Hf. destruct (mem f (analysed true s)) eqn:Em; [reflexivity|].
-      apply mem_false in Em.
-      destruct (restored_sem true s f HI Hdp Hf Em) as [P0 [c0 [_ [_ [_ [_ [_ [Hcd _]]]]]]]]. exact Hcd.
-    - intros f Hf _. destruct (mem f (analysed true s)) eqn:Em; [reflexivity|].
-      apply mem_false in Em.
-      destruct (restored_sem true s f HI Hdp Hf Em) as [P0 [c0 [_ [_ [_ [_ [_ [_ [_ Ho]]]]]]]]].
-      destruct (Ho eq_refl) as [_ Ho']. exact Ho'.
+    destruct (existsb _ (analysed true s)) eqn:Eerr; [split; [exact HI | simpl; discriminate]|].
+    assert (HG : forall a, InvG a (fst (mkState content out dg (s_src _ _ _ s) (s_cfg _ _ _ s) (s_mtime _ _ _ s) (s_now _ _ _ s + 1)
+               (Some (key_of (s_cfg _ _ _ s), new_manifest s (analysed true s)))
+               (fun f => if mem f (analysed true s) then diags (s_src _ _ _ s) (secs_of (s_cfg _ _ _ s)) f else s_cdiag _ _ _ s f)
+               (fun f => if mem f (analysed true s) then Some (s_now _ _ _ s) else s_gen _ _ _ s f)
+               (fun f => if mem f (analysed true s) then Some (emit (s_src _ _ _ s) (secs_of (s_cfg _ _ _ s)) f) else s_out _ _ _ s f)
+               (fun f => if mem f (analysed true s) then (mn_of s || s_mapok _ _ _ s f) else s_mapok _ _ _ s f)
+               (Some (s_src _ _ _ s, s_cfg _ _ _ s)), tt))).
+    { intros a. simpl. split; [exact Hnd|]. split; [intros f; simpl; specialize (Htime f); lia|].
+      simpl. unfold snap_ok. simpl.
+      split; [reflexivity|]. split; [apply (new_manifest_rel alt true); assumption|].
+      split; [exact Hnd|]. split; [apply (no_error_all alt true); assumption|]. split.
+      - intros f Hf. destruct (mem f (analysed true s)) eqn:Em; [reflexivity|].
+        apply mem_false in Em.
+        destruct (restored_sem alt true s f HI Hdp Hf Em) as [P0 [c0 [_ [_ [_ [_ [_ [Hcd _]]]]]]]]. exact Hcd.
+      - intros f Hf _. left. destruct (mem f (analysed true s)) eqn:Em; [reflexivity|].
+        apply mem_false in Em.
+        destruct (restored_sem alt true s f HI Hdp Hf Em) as [P0 [c0 [_ [_ [_ [_ [_ [_ [_ Ho]]]]]]]]].
+        destruct (Ho eq_refl) as [_ Ho']. exact Ho'. }
+    split; [exact (HG alt) | intros _; exact (HG false)].
   Qed.
 
   Lemma check_inv : forall s, Inv s -> deps_present false s -> check_safe s -> Inv (fst (check s)).
@@ -582,25 +605,26 @@ Section Correct.
     destruct (existsb _ (analysed false s)) eqn:Eerr; [exact HI|].
     simpl. split; [exact Hnd|]. split; [intros f; simpl; specialize (Htime f); lia|].
     simpl. unfold snap_ok. simpl.
-    split; [reflexivity|]. split; [apply (new_manifest_rel false); assumption|].
-    split; [exact Hnd|]. split; [apply (no_error_all false); assumption|]. split.
+    split; [reflexivity|]. split; [apply (new_manifest_rel false false); assumption|].
+    split; [exact Hnd|]. split; [apply (no_error_all false false); assumption|]. split.
     - intros f Hf. destruct (mem f (analysed false s)) eqn:Em; [reflexivity|].
       apply mem_false in Em.
-      destruct (restored_sem false s f HI Hdp Hf Em) as [P0 [c0 [_ [_ [_ [_ [_ [Hcd _]]]]]]]]. exact Hcd.
+      destruct (restored_sem false false s f HI Hdp Hf Em) as [P0 [c0 [_ [_ [_ [_ [_ [Hcd _]]]]]]]]. exact Hcd.
     - intros f Hf Hcl.
       destruct (in_dec N.eq_dec f (analysed false s)) as [Hin|Hn].
-      + exfalso. apply (Hsafe f Hf Hin). intros g Hg. destruct (Hcl g Hg) as [t [H1 [H2 [H3 H4]]]].
-        exists t. simpl in *. auto.
+      + exfalso. apply (Hsafe f Hf Hin). exact Hcl.
       + (* restored by the check: its closure is the snapshot's closure, unchanged *)
-        destruct (eff_cases s HI) as [He | [P0 [c0 [k [m [Hm [Hs [Hok [He Hsec]]]]]]]]].
+        destruct (eff_cases false s HI) as [He | [P0 [c0 [k [m [Hm [Hs [Hok [He Hsec]]]]]]]]].
         { exfalso. apply Hn. apply eff_empty_all_analysed; assumption. }
         destruct Hok as [Hk [Hmm [Hnd0 [Herr [Hcd Hout]]]]].
         unfold deps_present in Hdp. rewrite Hs in Hdp.
         destruct (restored_unchanged false s P0 c0 f Hnd Hnd0 He Herr (Hdp f Hf Hn) Hf Hn) as [Hf0 [Hag _]].
         destruct (locality P0 (s_src _ _ _ s) (secs_of c0) f Hag) as [Ld [Le _]].
-        rewrite <- Hsec. rewrite Le. apply Hout; [exact Hf0|].
-        intros g Hg. rewrite <- Ld in Hg. destruct (Hcl g Hg) as [t [H1 [H2 [H3 H4]]]].
-        exists t. simpl in *. rewrite Hsec. auto.
+        left. rewrite <- Hsec. rewrite Le.
+        assert (Hcl0 : closure_fresh (map_needed (secs_of c0)) s P0 f).
+        { destruct Hcl as [Hown Hcl]. split; [rewrite Hsec; exact Hown|].
+          intros g Hg. rewrite <- Ld in Hg. exact (Hcl g Hg). }
+        destruct (Hout f Hf0 Hcl0) as [Ho|[Hx _]]; [exact Ho | discriminate Hx].
   Qed.
 
   (* ---------------- histories ---------------- *)
@@ -654,15 +678,18 @@ Section Correct.
     (forall f, s_mtime _ _ _ s' f <= s_now _ _ _ s') ->
     s_man _ _ _ s' = s_man _ _ _ s -> s_snap _ _ _ s' = s_snap _ _ _ s ->
     s_cdiag _ _ _ s' = s_cdiag _ _ _ s ->
-    (forall mn g, fresh_out mn s' g -> fresh_out mn s g /\ s_out _ _ _ s' g = s_out _ _ _ s g) ->
+    (forall g, time_fresh s' g -> time_fresh s g) ->
+    (forall mn f, own_ok mn s' f -> own_ok mn s f /\ s_out _ _ _ s' f = s_out _ _ _ s f) ->
     Inv s'.
   Proof.
-    intros s s' [Hnd [Ht Hi]] Hnd' Ht' Hm Hs Hc Hf. split; [exact Hnd'|]. split; [exact Ht'|].
+    intros s s' [Hnd [Ht Hi]] Hnd' Ht' Hm Hs Hc Htf Hown. split; [exact Hnd'|]. split; [exact Ht'|].
     rewrite Hm, Hs. destruct (s_man _ _ _ s) as [[k m]|]; destruct (s_snap _ _ _ s) as [[P0 c0]|]; auto.
     destruct Hi as [Hk [Hmm [Hnd0 [Herr [Hcd Hout]]]]]. unfold snap_ok. rewrite Hc.
     repeat split; auto.
-    intros f Hf0 Hcl. destruct (Hf _ _ (Hcl f (or_introl eq_refl))) as [_ Ho]. rewrite Ho.
-    apply Hout; [exact Hf0|]. intros g Hg. apply (Hf _ _ (Hcl g Hg)).
+    intros f Hf0 [Ho Hcl]. destruct (Hown _ _ Ho) as [Ho' He]. rewrite He. left.
+    assert (Hcl0 : closure_fresh (map_needed (secs_of c0)) s P0 f).
+    { split; [exact Ho'|]. intros g Hg. apply Htf. exact (Hcl g Hg). }
+    destruct (Hout f Hf0 Hcl0) as [H|[Hx _]]; [exact H | discriminate Hx].
   Qed.
 
   Lemma step_inv : forall s st, Inv s -> step_ok s st -> Inv (apply s st).
@@ -671,23 +698,23 @@ Section Correct.
     - (* Edit *) apply (inv_weaken s); simpl; auto.
       + apply nodup_pset; exact Hnd.
       + intros g. unfold upd. destruct (g =? f); [lia | specialize (Ht g); lia].
-      + intros mn g [t [H1 [H2 [H3 H4]]]]. simpl in *. split; [|reflexivity]. exists t. repeat split; auto.
+      + intros g [t [H1 H4]]. simpl in *. exists t. split; [exact H1|].
         unfold upd in H4. destruct (g =? f) eqn:E; [|exact H4]. apply N.eqb_eq in E. subst. specialize (Ht f). lia.
     - (* EditKeep *) apply (inv_weaken s); simpl; auto. apply nodup_pset; exact Hnd.
     - (* Touch *) apply (inv_weaken s); simpl; auto.
       + intros g. unfold upd. destruct (g =? f); [lia | specialize (Ht g); lia].
-      + intros mn g [t [H1 [H2 [H3 H4]]]]. simpl in *. split; [|reflexivity]. exists t. repeat split; auto.
+      + intros g [t [H1 H4]]. simpl in *. exists t. split; [exact H1|].
         unfold upd in H4. destruct (g =? f) eqn:E; [|exact H4]. apply N.eqb_eq in E. subst. specialize (Ht f). lia.
     - (* Delete *) apply (inv_weaken s); simpl; auto. apply nodup_premove; exact Hnd.
     - (* SetCfg *) apply (inv_weaken s); simpl; auto.
     - (* DelOut *) apply (inv_weaken s); simpl; auto.
-      intros mn g [t [H1 [H2 [H3 H4]]]]. simpl in *. unfold upd in *. destruct (g =? f) eqn:E; [congruence|].
-      split; [|reflexivity]. exists t. repeat split; auto.
+      intros mn g [H2 H3]. simpl in *. unfold upd in *. destruct (g =? f) eqn:E; [congruence|].
+      split; [split; assumption | reflexivity].
     - (* DelMap *) apply (inv_weaken s); simpl; auto.
-      intros mn g [t [H1 [H2 [H3 H4]]]]. simpl in *. split; [|reflexivity]. exists t. repeat split; auto.
+      intros mn g [H2 H3]. simpl in *. split; [|reflexivity]. split; [exact H2|].
       intros Hmn. specialize (H3 Hmn). unfold upd in H3. destruct (g =? f); [discriminate | exact H3].
     - (* TamperOut *) contradiction.
-    - (* Build *) apply build_inv; assumption.
+    - (* Build *) exact (proj1 (build_inv false s HI Hok)).
     - (* Check *) destruct Hok. apply check_inv; assumption.
   Qed.
 
@@ -708,7 +735,7 @@ Section Correct.
     /\ (deps_present false s -> res_equiv (s_src _ _ _ s) (snd (check s)) (snd (check (forget s)))).
   Proof.
     intros P c h Hnd Hs s. assert (HI : Inv s) by (apply run_inv; [apply init_inv; exact Hnd | exact Hs]).
-    split; intros Hd; [apply build_eq_clean | apply check_eq_clean]; assumption.
+    split; intros Hd; [apply (build_eq_clean false) | apply check_eq_clean]; assumption.
   Qed.
 
 End Correct.
